@@ -245,6 +245,21 @@ def placeholder_samples():
     return rows
 
 
+NAME_POOL = ["status", "s", "ss", "owners", "x", "params", "s1s", "p_s", "class", "param1", "param2", "1", "22", "sp", "ps", "a1"]
+
+
+def named_samples():
+    """mode E: the five classes constructed with an explicit placeholder name: text and derived key"""
+    import pypika.terms as T
+    rows = []
+    for coq, cls in STYLES:
+        for name in NAME_POOL:
+            p = getattr(T, cls)(name)
+            text = p.get_sql()
+            rows.append((coq, name, text, str(p.get_param_key(placeholder=text))))
+    return rows
+
+
 def extract_c06_table():
     with open(os.path.join(lib.REPO, "pypika", "queries.py")) as f:
         src = f.read()
@@ -266,6 +281,10 @@ def extract_c06_table():
     out.append("Definition ph_samples : list (style * nat * string * string) := [")
     out.append(";\n".join("  (%s, %s, %s, %s)" % (c, N(n), S(t), S(str(k))) for c, n, t, k in placeholder_samples()))
     out.append("].")
+    out.append("(* (class, explicit placeholder name, cls(name).get_sql(), its get_param_key) *)")
+    out.append("Definition ph_named_samples : list (style * string * string * string) := [")
+    out.append(";\n".join("  (%s, %s, %s, %s)" % (c, S(n), S(t), S(k)) for c, n, t, k in named_samples()))
+    out.append("].")
     return "\n".join(out) + "\n"
 
 
@@ -284,7 +303,9 @@ RULE = ("`params` family: (a) typed random expression trees of harness/terms_fam
         "classes (or none); OBJECT SHARING: the very same Python object at several places of one statement (one query object as "
         "several set-operation operands a+b+b, one sub-query object in FROM and as IN container, one term object in select "
         "list / GROUP BY / HAVING / ORDER BY, one criterion object in WHERE and in a CASE; plus a random 30% of ordinary statements "
-        "built with structurally equal parts shared); a malformed stream (empty criteria, CASE without WHEN). Compared with the model: text AND collector "
+        "built with structurally equal parts shared); EXPLICITLY NAMED placeholders (ParameterValueWrapper with the class's own parameter "
+        "object, names from a pool that stresses the key derivation: ending/starting in s, one character, containing the automatic "
+        "prefix, equal to param<n>) mixed with literals, and custom placeholder generators on the collector (oracle only); a malformed stream (empty criteria, CASE without WHEN). Compared with the model: text AND collector "
         "contents. Non-trivial = at least two collected values; distinct by structural hash of (input, class).")
 TRUSTED = [
     "harness/props/C06.py builds the same term/statement on pypika and as a Gallina value; canonicalises collected values to tagged JSON",
@@ -341,7 +362,80 @@ def _skey(tag, x, *extra):
     return json.dumps([tag, x] + list(extra), sort_keys=True)
 
 
+# EXPLICITLY NAMED PLACEHOLDERS: ["pvw", name | None, value leaf] = ParameterValueWrapper(<class of the case>(name), value); the
+# collector files the value under the key the wrapper's own parameter derives from ITS placeholder text.  Not part of the
+# shared term AST: such cases are judged by the oracle only (to_coq returns None).
+_PVW_STYLE = "named"
+CUSTOM_GENS = {
+    "vs": lambda i: "v%ds" % (i + 1),           # names ending in the delimiter character of %(name)s
+    "s": lambda i: "s" * (i + 1),
+    "k": lambda i: "k%d" % i,
+    "sp": lambda i: "sp%dps" % (i + 1),
+}
+
+
+def has_pvw(x):
+    if isinstance(x, list):
+        return (bool(x) and x[0] == "pvw") or any(has_pvw(y) for y in x)
+    if isinstance(x, dict):
+        return any(has_pvw(y) for y in x.values())
+    return False
+
+
+def pvw_names(x, acc=None):
+    acc = [] if acc is None else acc
+    if isinstance(x, list):
+        if x and x[0] == "pvw":
+            acc.append(x[1])
+        for y in x:
+            pvw_names(y, acc)
+    elif isinstance(x, dict):
+        for y in x.values():
+            pvw_names(y, acc)
+    return acc
+
+
+def _build_pvw(t):
+    """builder for the term kinds that may hold a pvw leaf (everything else goes to terms_family)"""
+    import pypika.terms as T
+    import pypika.enums as E
+    if not has_pvw(t):
+        return tf.build(map_leaves(t, _mat_py))
+    k = t[0]
+    if k == "pvw":
+        sty = _PVW_STYLE if _PVW_STYLE != "inline" else "named"
+        cls = getattr(T, STYLE_CLS[sty])
+        own = cls(t[1]) if (t[1] is not None and sty in ("named", "pyformat", "numeric")) else cls()
+        return T.ParameterValueWrapper(own, raw_value(t[2]))
+    if k == "basic":
+        cls = E.Equality if t[1] in tf.EQUALITY else E.Matching
+        return T.BasicCriterion(getattr(cls, t[1]), _build_pvw(t[2]), _build_pvw(t[3]), alias=t[4])
+    if k == "cplx":
+        return T.ComplexCriterion(getattr(E.Boolean, t[1] + "_"), _build_pvw(t[2]), _build_pvw(t[3]), alias=t[4])
+    if k == "arith":
+        return T.ArithmeticExpression(getattr(E.Arithmetic, t[1]), _build_pvw(t[2]), _build_pvw(t[3]), alias=t[4])
+    if k == "between":
+        return T.BetweenCriterion(_build_pvw(t[1]), _build_pvw(t[2]), _build_pvw(t[3]), alias=t[4])
+    if k == "not":
+        return T.Not(_build_pvw(t[1]), alias=t[2])
+    if k == "tuple":
+        return T.Tuple(*[_build_pvw(a) for a in t[1]])
+    if k == "in":
+        c = T.ContainsCriterion(_build_pvw(t[1]), _build_pvw(t[2]), alias=t[4])
+        return c.negate() if t[3] else c
+    if k == "case":
+        c = T.Case(alias=t[3])
+        for cr, v in t[1]:
+            c = c.when(_build_pvw(cr), _build_pvw(v))
+        if t[2] is not None:
+            c = c.else_(_build_pvw(t[2]))
+        return c
+    raise ValueError("pvw below %r" % k)
+
+
 def build_term(t):
+    if has_pvw(t):
+        return _build_pvw(t)
     if _SHARE is None:
         return tf.build(map_leaves(t, _mat_py))
     k = _skey("term", t)
@@ -617,15 +711,19 @@ def untag(tv):
             "n": lambda: None, "d": lambda: Decimal(tv[1]), "o": lambda: tv[2]}[tv[0]]()
 
 
-def _collector(style):
+def _collector(style, gen=None):
     import pypika.terms as T
-    return None if style == "inline" else getattr(T, STYLE_CLS[style])()
+    if style == "inline":
+        return None
+    cls = getattr(T, STYLE_CLS[style])
+    return cls(CUSTOM_GENS[gen]) if gen else cls()
 
 
 def _render(case, style):
     """(text | "!Exc", collected as [[key, tagged value]])"""
-    global _SHARE
-    p = _collector(style)
+    global _SHARE, _PVW_STYLE
+    p = _collector(style, case.get("gen"))
+    _PVW_STYLE = case["sty"]
     _SHARE = {} if case.get("share") else None
     try:
         if case["kind"] == "term":
@@ -673,6 +771,8 @@ def coq_pval(tv):
 
 def to_coq(case, outcome):
     spec = case["t"] if case["kind"] == "term" else case["s"]
+    if case.get("gen") or has_pvw(spec):
+        return None      # custom placeholder generators / ParameterValueWrapper: judged by the oracle only
     fl = floats_of(spec)
     if set(fl) & set(decimals_of(spec)):
         return None      # a float and a Decimal with the same text in one case: the model's classifier cannot tell them apart
@@ -980,6 +1080,56 @@ def gen_shared(rng, tier):
     return ["select", s_]
 
 
+GEN_NAMES = ["status", "s", "ss", "owners", "x", "params", "s1s", "p_s", "class", "sp", "ps", "a1", "sss", "ms"]
+CLASH_NAMES = ["param1", "param2", "param3"]
+
+
+def gen_named(rng, tier):
+    """explicitly named placeholders (ParameterValueWrapper) mixed with literals; custom placeholder generators"""
+    g = PGen(rng, allowed=[], p_alias=0.0, p_table=0.0, hostile=0.2, p_none=0.0)
+    names = rng.sample(GEN_NAMES, 4)
+    if rng.random() < 0.08:
+        names[rng.randrange(4)] = rng.choice(CLASH_NAMES)
+
+    def val():
+        v = g.value()
+        while v[0] in ("vald", "valnone"):
+            v = g.value()
+        return [v[0], v[1], None] if v[0] != "valb" else ["valb", v[1], False, None]
+
+    def pv(i):
+        return ["pvw", names[i], val()]
+
+    def crit(i):
+        r = rng.random()
+        if r < 0.5:
+            return ["basic", rng.choice(["eq", "gt", "lte", "ne"]), g.field(), pv(i), None]
+        if r < 0.7:
+            return ["between", g.field(), pv(i), g.value(), None]
+        if r < 0.85:
+            return ["basic", "eq", g.field(), ["arith", "add", pv(i), g.value(), None], None]
+        return ["in", g.field(), ["tuple", [g.value(), pv(i), g.value()], None], False, None]
+    n = rng.choice([1, 2, 2, 3])
+    c = crit(0)
+    for i in range(1, n):
+        c = ["cplx", rng.choice(["and", "and", "or"]), c, rng.choice([crit(i), g.boolean(1)]), None]
+    if rng.random() < 0.5:
+        c = ["cplx", "and", g.boolean(1), c, None]
+    r = rng.random()
+    if r < 0.25:
+        return {"kind": "term", "t": c, "c": dict(tf.STR_CTX)}
+    if r < 0.75:
+        s_ = _sel([g.field(), g.value()], frm=rng.choice(TBLS), where=["t", c])
+        if rng.random() < 0.4:
+            s_["having"] = ["t", ["basic", "gt", g.field(), pv(3), None]]
+            s_["groupby"] = [g.field()]
+        return {"kind": "stmt", "s": ["select", s_], "dialect": "sqlite"}
+    if r < 0.9:
+        return {"kind": "stmt", "s": ["delete", rng.choice(TBLS), ["t", c]], "dialect": "sqlite"}
+    return {"kind": "stmt", "s": ["insert", rng.choice(TBLS), ["a", "b", "c"], [[pv(0), g.value(), pv(1)], [g.value(), pv(2), g.value()]]],
+            "dialect": "sqlite"}
+
+
 def gen_cases(rng, tier):
     n = 520 if tier == "quick" else 7000
     out = []
@@ -998,7 +1148,16 @@ def gen_cases(rng, tier):
             if rng.random() < 0.5:
                 t = ["between", g.value(), t, g.value(), None]      # values collected before the failure
             out.append({"kind": "term", "t": t, "c": dict(tf.STR_CTX), "sty": sty})
-        elif r < 0.50:
+        elif r < 0.44:
+            c = gen_named(rng, tier)
+            c["sty"] = rng.choice(["named", "pyformat", "named", "pyformat", "qmark", "format", "inline"])
+            out.append(c)
+        elif r < 0.47:
+            # a custom placeholder generator on the collector
+            st = gen_stmt(rng, tier)
+            out.append({"kind": "stmt", "s": sqlite_friendly(st), "dialect": "sqlite", "sty": rng.choice(["named", "pyformat"]),
+                        "gen": rng.choice(["vs", "s", "k", "sp"])})
+        elif r < 0.56:
             st = gen_shared(rng, tier)
             dialect = rng.choice(["generic", "sqlite", "sqlite"])
             if dialect == "sqlite" and rng.random() < 0.7:
@@ -1118,6 +1277,21 @@ def corpus():
         out.append({"kind": "term", "c": sc, "sty": sty, "t": ["neg", I(-1)]})
         out.append({"kind": "term", "c": sc, "sty": sty, "t": ["arith", "sub", F("a"), ["arith", "mul", I(-1), F("b"), None], None]})
         out.append({"kind": "term", "c": sc, "sty": sty, "t": ["arith", "sub", F("a"), ["valf", "-2.25", None], None]})
+        # explicitly named placeholders (the red-team demo: names ending in the delimiter character s) and custom generators
+        if sty in ("named", "pyformat"):
+            wq = ["cplx", "and", ["cplx", "and", ["basic", "eq", F("col"), ["pvw", "status", Sv("abc")], None],
+                                  ["basic", "eq", F("a"), ["pvw", "s", I(2)], None], None],
+                  ["basic", "gte", F("b"), I(1), None], None]
+            out.append({"kind": "stmt", "dialect": "sqlite", "sty": sty, "s": ["select", _sel([F("a")], where=["t", wq], orderby=[[F("a"), True]])]})
+            out.append({"kind": "term", "c": sc, "sty": sty,
+                        "t": ["between", F("a"), ["pvw", "ss", I(1)], ["pvw", "owners", I(9)], None]})
+            for gname in ("vs", "s", "sp"):
+                out.append({"kind": "stmt", "dialect": "sqlite", "sty": sty, "gen": gname,
+                            "s": ["select", _sel([F("a")], where=["t", ["cplx", "and", ["basic", "eq", F("col"), Sv("abc"), None],
+                                                                       ["between", F("b"), I(0), I(7), None], None]])]})
+            # an explicit name that is also the collector's next automatic name: the later assignment overwrites the earlier
+            out.append({"kind": "term", "c": sc, "sty": sty,
+                        "t": ["cplx", "and", ["basic", "eq", F("a"), ["pvw", "param2", Sv("x")], None], ["basic", "eq", F("b"), I(5), None], None]})
         # ORDER BY of a set operation repeating a result column that contains a literal
         e1 = ["arith", "add", F("a"), I(1), None]
         out.append({"kind": "stmt", "dialect": "sqlite", "sty": sty,
@@ -1306,6 +1480,21 @@ def resolve(style, params, text, n):
 
 
 def oracle(case, outcome):
+    V = _oracle(case, outcome)
+    spec = case["t"] if case["kind"] == "term" else case["s"]
+    if V and case["sty"] in ("named", "pyformat") and not case.get("gen"):
+        names = [n for n in pvw_names(spec) if n is not None]
+        total = len(names) + len([x for x in walk_leaves(spec, []) if x[0] in VALUE_KINDS])
+        autos = {"param%d" % (i + 1) for i in range(total)}
+        if autos & set(names):
+            # an explicit name equal to one of the collector's automatic names: one dict entry serves two placeholders
+            return [{"signature": ["C06", "ParameterValueWrapper", case["sty"], "explicit-name-clash"],
+                     "what": "an explicitly named placeholder uses a name the collector also generates (%s): %s"
+                             % (sorted(autos & set(names)), V[0]["what"])}]
+    return V
+
+
+def _oracle(case, outcome):
     sty = case["sty"]
     if sty == "inline" or "harness_exc" in outcome:
         return []
